@@ -5,14 +5,14 @@ schedules, sbatch failures, node kills and time-outs, dependency cycles; every i
 Coq monitors; Python oracles judge impl's trace and final state directly (harness/syscheck.py)."""
 from harness import core, syscheck
 
-MODES = {'sbatchfail': 3, 'timeout': 3, 'kill': 2, 'cyclic': 2, 'plain': 1, 'appendtimeout': 1, 'suspend': 2}
+MODES = {'sbatchfail': 3, 'timeout': 3, 'kill': 2, 'cyclic': 2, 'plain': 1, 'appendtimeout': 1, 'suspend': 2, 'bigloss': 2}
 
 
 def run(chk):
     ok = core.standard_proof_phase(chk, "C12", gen_needed=())
     chk.notes["system_theorems"] = ['c12_accounting_partial', 'c12_no_start_after_missing', 'c12_rows_kept', 'c12_completion_after_loss_partial', 'c12_forced_completion_only_when_nothing_active']
     chk.notes["partial"] = 'proved: a round from a quiescent state that reaches its completion check submits or completes; NOT proved in Coq: that it reaches the check (oracle on impl); known finding: a node that dies while holding a result-file or cluster lock with markers never broken wedges collection'
-    syscheck.system_phase(chk, "C12", MODES, n_quick=180, n_thorough=3500, also=(), directed=("node_dies_holding_result_lock", "try_races_with_last_node"))
+    syscheck.system_phase(chk, "C12", MODES, n_quick=200, n_thorough=3500, also=(), directed=("node_dies_holding_result_lock", "try_races_with_last_node"))
 
 
 def replay(path):
